@@ -622,6 +622,10 @@ func (v *Verifier) subtypeObligations(ex *Exec, fn *ssa.Function, pre, post *Env
 		return
 	}
 	recvT := sig.Recv().Type()
+	if tag := ex.fc.Options["no-subtype"]; tag != "" {
+		ex.c.trusted[tag+": the interface-level meaning of "+ex.fname+" is not derived from its contract (heap-dependent implementation)"] = true
+		return
+	}
 	var keys []string
 	for k, fc := range v.cs.Funcs {
 		if fc.Iface {
@@ -747,7 +751,7 @@ func (ex *Exec) frameCheck(env *Env, in, out *MemState, reach Term) {
 	for _, k := range ks {
 		before := c.memRaw(in, k)
 		after := out.m[k]
-		if before == after {
+		if before == after || strings.HasPrefix(k, "Mghost ") {
 			continue
 		}
 		t := memTypes[k]
